@@ -1,16 +1,114 @@
 """C02 configuration."""
 CONFIG = {
     "design_ref": "4.2",
-    "technique": "Lean 4 proof: Term::eq/cmp/hash transcribed; laws proved via an order-preserving injective encoding into List Nat (core TransOrd/LawfulEqOrd); differential over all ordered pairs of shipped Term representations",
-    "level_text": "Proof (unbounded, all terms incl. arbitrarily nested quoted triples): for the transcription of Term::eq / Term::cmp / Term::hash and LanguageTag's folded Eq/Ord/Hash: eq is an equivalence, equal terms produce the same Hasher input sequence, cmp is a total order (swap, transitivity) that is Equal exactly for equal terms (under the RDF well-formedness guard: untagged literals never have datatype rdf:langString) and orders kinds blank < IRI < literal < triple < variable; NsTerm's hand-written eq equals the default. The tie to every shipped Term implementation (SimpleTerm owned/borrowed, CmpTerm, ArcTerm, RcTerm, stash copies, ResultTerm, IriRef/Iri/BnodeId/VarName/GenericLiteral/native str,i32,isize,usize,bool, NsTerm, Rio Trusted<...>) and to the conversion paths is differential: all ordered pairs of representations must give the model's eq/cmp/hash-equality.",
-    "level_note": "Trusted: UTF-8 byte order = code point order (str::cmp modelled on code points, exercised at every UTF-8 length boundary); std DefaultHasher only through 'same input sequence => same hash'; JSON-LD RdfTerm, C14nTerm and IsoTerm are not in the representation matrix (private modules). No native_decide.",
-    "tables": [],
+    "technique": "Lean 4 proof: Term::eq/cmp/hash transcribed (pattern-matching form proved equal to the accessor-style text of the Rust default methods); laws proved via an order-preserving injective encoding into List Nat (core TransOrd/LawfulEqOrd); conversions modelled as rebuild-from-accessors and proved to be the identity; source-shape table regenerated from /repo; differential over all ordered pairs of shipped Term representations, every std PartialEq/PartialOrd/Ord/Hash impl, every conversion path",
+    "level_text": "Proof (unbounded, all terms incl. arbitrarily nested quoted triples): for the transcription of Term::eq / Term::cmp / Term::hash and LanguageTag's folded Eq/Ord/Hash: eq is an equivalence, equal terms produce the same Hasher input sequence, cmp is a reflexive total order (swap, transitivity) that is Equal exactly for equal terms (under the RDF well-formedness guard: untagged literals never have datatype rdf:langString) and orders kinds blank < IRI < literal < triple < variable (both directions); language tags (and the literals carrying them: eq, hash, cmp) are insensitive to any ASCII case change; NsTerm's hand-written eq equals the default; from_term / from_term_ref / copy_term (rebuild from kind() + accessors) return the same term (hence an equal one, same hash, cmp Equal), GenericLiteral::try_from_term succeeds exactly on literals with the same literal; graph_name_eq is an equivalence; the wrap!-generated std impls agree with term equality of IRIs / blank nodes / variables. Over the table regenerated from /repo on every run (Gen/TermKind.lean): Kind.rank = the TermKind discriminants and Ord/Hash are derived; every transcribed statement of the default eq/cmp/hash is still in the source; LanguageTag still folds; NsTerm::eq still has the modelled shape; CmpTerm / IsoTerm / ResultTerm / &T / C14nTerm forward every accessor to the wrapped term; all 21 std PartialEq/PartialOrd/Ord/Hash impls of term types are one-line calls of Term::eq/cmp/hash. The tie to every shipped Term implementation (SimpleTerm owned/borrowed/&, CmpTerm<T>, ArcTerm, RcTerm, stash copies, ResultTerm, IriRef/Iri/BnodeId/VarName over str/String/Box/Arc, GenericLiteral, native str,i32,isize,usize,bool,f64, NsTerm, str*NsTerm, str*LanguageTag, Rio Trusted<NamedNode|BlankNode|Variable|Literal|GraphName|Term|GeneralizedTerm> incl. nested quoted triples, JSON-LD RdfTerm and ArcBnode) and to the conversion paths is differential: all ordered pairs of representations must give the model's eq/cmp/hash-equality; all std trait impls (same-type and cross-type) likewise; 3x3 law matrices over all representation pairs.",
+    "level_note": "Trusted: UTF-8 byte order = code point order (str::cmp modelled on code points, exercised at every UTF-8 length boundary); std DefaultHasher only through 'same input sequence => same hash'. C14nTerm and IsoTerm live in private modules: they are covered by the generated delegation table (source shape), not by the differential. IsoTerm's std PartialEq/Ord are blank-node-agnostic by design and not part of this property. Native TryFromTerm (i32, f64, ...) is value conversion, checked by C20. No native_decide.",
+    "tables": ["term_kind"],
     "lean_targets": ["SophiaProofs.Props.C02", "SophiaProofs.Audit.C02"],
     "theorems": ["termEq_refl", "termEq_symm", "termEq_trans", "eq_hash", "cmp_eq_iff", "cmp_swap", "cmp_trans",
-                 "cmp_trans_lt", "cmp_kind", "nsterm_eq"],
+                 "cmp_trans_lt", "cmp_kind", "cmp_kind_gt", "cmp_refl", "eq_kind", "nsterm_eq",
+                 "eqA_eq", "cmpA_eq", "hashA_eq", "tagCmp_eq_iff", "tag_case_insensitive", "lang_case_insensitive",
+                 "fromTerm_id", "conv_eq", "accessors_total", "genericLiteral_spec", "gn_refl", "gn_symm", "gn_trans",
+                 "wrap_laws",
+                 "eqI_eq", "cmpI_eq", "hashI_eq", "impl_independent", "views_self", "views_ns",
+                 "gen_kind_disc", "gen_default_shape", "gen_tag_folds", "gen_nsterm_shape", "gen_delegation",
+                 "gen_std_impls"],
     "native_ok": [],
-    "trivial_re": r"^eq=0 cmp=(lt|gt) heq=0 pairs=(1|4|9)\b",
-    "rule": "pairs (A,B) of abstract terms from small colliding alphabets (all kinds, nesting <= 2, case-variant tags, strings at UTF-8 length boundaries); 20% identical, 30% differing in exactly one component; each pair is evaluated over ALL ordered pairs of representations of A and B (the `pairs` field counts them); plus conversion-path requests, law triples and NsTerm split points; non-trivial = not a cross-kind pair with a single representation pair",
-    "trusted_base": ["Term::eq/cmp/hash transcription lean/SophiaModel/Basic/TermOrder.lean"],
-    "assumptions": ["UTF-8 byte order equals code point order"],
+    "trivial_re": r"^eq=0 cmp=(lt|gt) heq=0 cmpeq=0 xk=(lt|gt) pairs=\d+ ",
+    "rule": "pairs (A,B) of abstract terms from small colliding alphabets (all kinds, nesting <= 3, strict and generalized quoted triples, case-variant and multi-subtag language tags, strings at UTF-8 length boundaries, 300-char strings, native-compatible literals, the same string used as IRI / label / variable name / lexical form); 10% identical, 10% equal up to the case of every tag, 40% differing in exactly one component at any depth; each pair is evaluated over ALL ordered pairs of representations of A and B (`pairs`), plus all std trait impls same-type and cross-type (`spairs`); conversion-path requests (c), 3x3 law matrices (t), NsTerm split points incl. prefix+suffix-match-but-longer and empty suffix (ns), string wrappers (w), optional graph names (g); non-trivial = not a plain cross-kind pair; a request with a component outside its wrapper's grammar is answered skip= and carries no oracle",
+    "trusted_base": ["Term::eq/cmp/hash transcription lean/SophiaModel/Basic/TermOrder.lean + accessor-style text lean/SophiaModel/Model/TermImpls.lean (proved equal)",
+                     "tools/extractors/c02.py (source-shape recogniser, fail-closed)"],
+    "assumptions": ["UTF-8 byte order equals code point order",
+                    "derived Ord/Hash of a field-less enum go by discriminant (Rust reference)"],
+    # the exec side is CPU bound (~15 s quick, ~2 min thorough when idle): generous for a loaded machine
+    "exec_timeout": 3600,
+    "gen_timeout": 1800,
 }
+
+
+# ---------------------------------------------------------------- shrinking of a failing request
+def _parse(toks, i):
+    """prefix notation of T::render -> (tree, next index); tree = ('t', s, p, o) | (tag, hex...)"""
+    k = toks[i]
+    if k in ("i", "b", "v"):
+        return (k, toks[i + 1]), i + 2
+    if k in ("l", "g"):
+        return (k, toks[i + 1], toks[i + 2]), i + 3
+    if k == "t":
+        s, j = _parse(toks, i + 1)
+        p, j = _parse(toks, j)
+        o, j = _parse(toks, j)
+        return ("t", s, p, o), j
+    raise ValueError(k)
+
+
+def _render(t):
+    if t[0] == "t":
+        return "t " + " ".join(_render(x) for x in t[1:])
+    return " ".join(t)
+
+
+def _size(t):
+    return 1 + sum(_size(x) for x in t[1:]) if t[0] == "t" else 1
+
+
+def _variants(t):
+    """t with one quoted-triple node (at any depth) replaced by one of its components"""
+    if t[0] != "t":
+        return
+    for c in t[1:]:
+        yield c
+    for idx in (1, 2, 3):
+        for v in _variants(t[idx]):
+            yield t[:idx] + (v,) + t[idx + 1:]
+
+
+def _shrink(failure, run):
+    req = failure["request"]
+    op, _, rest = req.partition(" ")
+    if op not in ("p", "t", "c"):
+        return failure
+    best = failure
+    for _round in range(12):
+        terms = []
+        for part in best["request"].partition(" ")[2].split("|"):
+            toks = part.split()
+            t, j = _parse(toks, 0)
+            if j != len(toks):
+                return best
+            terms.append(t)
+        cands = []
+        # all sides descend into the same component (keeps "equal up to ..." relations between the sides)
+        if all(t[0] == "t" for t in terms):
+            for idx in (1, 2, 3):
+                cands.append([t[idx] for t in terms])
+        for k, t in enumerate(terms):
+            for v in _variants(t):
+                cands.append(terms[:k] + [v] + terms[k + 1:])
+        cands.sort(key=lambda ts: sum(_size(t) for t in ts))
+        reqs = []
+        for ts in cands[:200]:
+            r = op + " " + " | ".join(_render(t) for t in ts)
+            if r not in reqs:
+                reqs.append(r)
+        # a long string replaced everywhere it occurs by "a" (keeps equalities between the sides)
+        cur = best["request"]
+        for tok in sorted(set(cur.split()), key=len, reverse=True):
+            if len(tok) > 16 and all(c in "0123456789abcdef" for c in tok):
+                r = " ".join("61" if x == tok else x for x in cur.split())
+                if r not in reqs:
+                    reqs.append(r)
+        if not reqs:
+            break
+        ofail, _dis, _errs = run(reqs)
+        failing = [f for f in ofail if f.get("field") == best.get("field")] or ofail
+        if not failing:
+            break
+        order = {r: n for n, r in enumerate(reqs)}
+        failing.sort(key=lambda f: order.get(f["request"], 1 << 30))
+        best = failing[0]
+    return best
+
+
+CONFIG["shrink"] = _shrink
